@@ -1,6 +1,18 @@
-HOOK_COMMITS = []
+HOOK_COMMITS = ["0367723"]
 
 CHECKS = {
+    "C10": {
+        "text": "TLC checks spec/SchemaCache.tla (one action per critical section of SchemaCache.Schema/refTo/referencePackage and the "
+                "recursive build) exhaustively for 2 (thorough: 3) goroutines over shared, recursive and cross-package type graphs: mutual "
+                "exclusion, no conflicting map access, every call returns what it returns alone, no placeholder visible outside the lock, "
+                "termination. The unguarded variant of the same spec yields one shortest schedule per misbehaving state; each is forced "
+                "step by step on the real code through the guarded verifAt gates and call results are compared with a private codec. "
+                "Free-running stress on shared/global codecs under the Go race detector; hook traces validated by TLC (SchemaCacheTrace)",
+        "design_ref": "DESIGN.md 5.4, 6/C10, 7",
+        "note": "data races are observed by the Go race detector / crashes, not by TLC; forced schedules cover the hook granularity; "
+                "stress is sampling; type graphs are small dynamic proto3 messages",
+        "technique": "TLA+ spec + TLC exhaustive interleavings, TLC-derived attack schedules replayed with blocking hooks, -race stress, TLC trace validation",
+    },
     "C20": {
         "text": "TLC explores spec/Id62.tla (digit-by-digit base conversion machine) over all boundary identifiers, all parser strings "
                 "up to length 4 over 14 character classes, boundary strings around 2^128 and simulated random identifiers/strings; "
